@@ -59,6 +59,9 @@ type ReadCfg struct {
 	Bufio int
 	// ZeroBuf: the application now and then calls Read with an empty buffer.
 	ZeroBuf bool
+	// OnContRead: the OnContinuation handler reads part of the fragment's
+	// body itself (units are then always read to their end).
+	OnContRead bool
 }
 
 func (c ReadCfg) Name() string {
@@ -270,9 +273,21 @@ func appReader(r *eng.Run, p *Pipe, cfg ReadCfg, o *Outcome) {
 			return err
 		}
 	}
+	var cur *Rec // the unit being read
 	if cfg.OnCont {
 		rd.OnContinuation = func(h ws.Header, src io.Reader) error {
 			o.Conts = append(o.Conts, ContRec{h, pos()})
+			if cfg.OnContRead && cur != nil {
+				// The handler takes the first bytes of the fragment itself;
+				// they are message data like any other.
+				b := make([]byte, r.T.Int(sim.LAct, int(h.Length)+1))
+				n, err := io.ReadFull(src, b)
+				cur.Data = append(cur.Data, b[:n]...)
+				r.Probe("continuation_handler_reads_body")
+				if err != nil && err != io.EOF && err != io.ErrUnexpectedEOF {
+					return err
+				}
+			}
 			return nil
 		}
 	}
@@ -299,10 +314,11 @@ func appReader(r *eng.Run, p *Pipe, cfg ReadCfg, o *Outcome) {
 			o.Recs = append(o.Recs, *rec)
 			continue
 		}
-		allow := !cfg.NoDiscard
+		allow := !cfg.NoDiscard && !cfg.OnContRead
 		if allow && cfg.MustRead != nil && cfg.MustRead(len(topLevel(o.Recs))) {
 			allow = false
 		}
+		cur = rec
 		if !readUnit(r, p, rd, rd.Discard, rec, o, allow) {
 			if cfg.AfterUTF8Error && o.Err == wsutil.ErrInvalidUTF8 && o.ErrAt == "Read" {
 				if derr := rd.Discard(); derr == nil {
